@@ -91,9 +91,21 @@ Definition master_rv (p : MasterPlaylist) : N :=
          maxl (map key_rv (ma_skeys p)) ].
 
 (* ---------- Display ---------- *)
+(* a STREAM-INF variant is written as two lines (the tag and its URI) *)
+Definition variant_lines (v : Variant) : list str := split_on 10 (print_variant v).
+Definition master_body_lines (p : MasterPlaylist) : list str :=
+  map print_xmedia (ma_media p)
+  ++ flat_map variant_lines (ma_variants p)
+  ++ map print_session_data (ma_sdata p)
+  ++ map print_session_key (ma_skeys p)
+  ++ (if ma_indep p then [pfx_ExtXIndependentSegments] else [])
+  ++ olist (ma_start p) print_start
+  ++ ma_unknown p.
+Definition master_lines (p : MasterPlaylist) : list str :=
+  [pfx_ExtM3u] ++ version_line (master_rv p) ++ master_body_lines p.
 Definition print_master (p : MasterPlaylist) : str :=
   nl pfx_ExtM3u
-  ++ (if master_rv p =? 1 then [] else nl (pfx_ExtXVersion ++ print_protocol_version (master_rv p)))
+  ++ flat_map nl (version_line (master_rv p))
   ++ flat_map (fun m => nl (print_xmedia m)) (ma_media p)
   ++ flat_map (fun v => nl (print_variant v)) (ma_variants p)
   ++ flat_map (fun d => nl (print_session_data d)) (ma_sdata p)
